@@ -80,9 +80,51 @@ def _in_file(span, path):
     return None
 
 
-def run_verus(name, text, extra_args=(), timeout=900, rlimit=None):
+def demote(text, ob_id):
+    """The function of obligation `ob_id` is outside the verifier's reach (front-end rejection): keep its signature and
+    contract as an assumption (external_body, body dropped) so that the rest of the file can be verified, and mark the
+    obligation `kind=demoted` - it is undecided, never discharged."""
+    lines = text.split('\n')
+    m = next((k for k, l in enumerate(lines) if l.strip().startswith('//@ob ') and f'id={ob_id} props=' in l), None)
+    if m is None:
+        return None
+    head = '\n'.join(lines[:m + 1])
+    rest = '\n'.join(lines[m + 1:])
+    toks = rsparse.tokenize(rest)
+    k = next((i for i, t in enumerate(toks) if t.kind == 'ident' and t.text == 'fn'), None)
+    if k is None:
+        return None
+    # top-level brace groups after `fn`: the last one before the item ends is the body
+    i, body = k, None
+    while i < len(toks):
+        t = toks[i]
+        if t.kind == 'punct' and t.text in ('(', '[', '{'):
+            c = rsparse.match_close(toks, i)
+            if t.text == '{':
+                body = (i, c)
+                # the body is the group that is followed by another item / the end of the container
+                nxt = toks[c + 1] if c + 1 < len(toks) else None
+                if nxt is None or not (nxt.kind == 'punct' and nxt.text in (',', '&&', '||', '==', '.', ')', '=>', '{')):
+                    break
+            i = c + 1
+            continue
+        if t.kind == 'punct' and t.text == ';':
+            return None      # a declaration without body
+        i += 1
+    if body is None:
+        return None
+    o, c = body
+    ind = lines[m][:len(lines[m]) - len(lines[m].lstrip())]
+    new_rest = rest[:toks[o].start] + '{ unimplemented!() }' + rest[toks[c].end:]
+    head = head.replace(f'id={ob_id} props=', f'id={ob_id} props=', 1)
+    hl = head.split('\n')
+    hl[-1] = hl[-1].replace(' kind=exec', ' kind=demoted').replace(' kind=context', ' kind=demoted')
+    return '\n'.join(hl) + '\n' + ind + '#[verifier::external_body] // demoted: outside the verifier\'s reach, contract assumed, obligation undecided\n' + new_rest
+
+
+def run_verus(name, text, extra_args=(), timeout=400, rlimit=None):
     """Verify `text` (written to build/verus/<name>.rs).  Result is cached on the text hash."""
-    key = 'verus-' + sha('r2' + text + verus_version() + ' '.join(extra_args))[:40]   # r<n>: revision of the diagnostic attribution below
+    key = 'verus-' + sha('r3' + text + verus_version() + ' '.join(extra_args))[:40]   # r<n>: revision of the diagnostic attribution below
     res = cache_get(key)
     d = os.path.join(BUILD, 'verus')
     os.makedirs(d, exist_ok=True)
@@ -148,12 +190,18 @@ def run_verus(name, text, extra_args=(), timeout=900, rlimit=None):
         low = msg.lower()
         code = (dg.get('code') or {}).get('code') if isinstance(dg.get('code'), dict) else dg.get('code')
         is_verdict = code is None and VERDICT.search(low) is not None
-        if 'rlimit' in low or 'resource limit' in low or 'timeout' in low or 'not supported' in low or 'unsupported' in low:
+        if ('rlimit' in low or 'resource limit' in low or 'timeout' in low) and ob is not None and ob['kind'] == 'canary':
+            # a vacuity canary must NOT verify; running out of its (small) budget without deriving `false` is that
+            res['failures'].append(entry)
+        elif 'rlimit' in low or 'resource limit' in low or 'timeout' in low:
             res['undecided'].append(dict(entry, reason=msg))
+        elif 'not supported' in low or 'unsupported' in low:
+            res['undecided'].append(dict(entry, reason=msg, frontend=True, ob_kind=ob['kind'] if ob else None))
         elif not is_verdict:
             # rustc / Verus front-end rejected the generated text: construct outside the extractor's reach
             res['undecided'].append(dict(entry, reason='generated text rejected before verification (unsupported construct in '
-                                         + (ob['id'] if ob else 'unattributed text') + '): ' + msg))
+                                         + (ob['id'] if ob else 'unattributed text') + '): ' + msg,
+                                         frontend=True, ob_kind=ob['kind'] if ob else None))
         elif ob is None:
             if not vr.get('encountered-vir-error'):
                 res['undecided'].append(dict(entry, reason='verifier error outside any named obligation: ' + msg))
